@@ -1,0 +1,15 @@
+//go:build verif
+
+package bip39
+
+import "io"
+
+// VerifSwapSource replaces the randomness source consulted by NewMnemonic and
+// returns the previous one. It exists only in builds with the "verif" tag and
+// is used by the verification harness to inject a simulated entropy device
+// and to observe the identity of the current source.
+func VerifSwapSource(r io.Reader) io.Reader {
+	prev := cryptoRander
+	cryptoRander = r
+	return prev
+}
